@@ -94,6 +94,97 @@ impl Engine for Expansion {
     }
 }
 
+/// The same bounds for frames written one at a time by FlacStreamWriter, whose parameters may change
+/// from frame to frame (state cached per channel must not leak from one frame into the next).
+pub struct StreamExpansion;
+
+impl Engine for StreamExpansion {
+    type Case = super::c02::StreamCase;
+    fn name(&self) -> &'static str {
+        "expansion-stream-writer"
+    }
+    fn check(&self, c: &super::c02::StreamCase) -> Outcome {
+        let mut out = Outcome::new();
+        let (bytes, spans, pcms) = match guarded(|| super::c02::write_stream(c)) {
+            Err(p) => {
+                out.fails.push(Fail::panic("stream-write-panic", &p));
+                return out;
+            }
+            Ok(Err(e)) => {
+                // conformance of the raw stream is C02 / C16's business
+                let _ = e;
+                out.label("stream-write-failed");
+                return out;
+            }
+            Ok(Ok(x)) => x,
+        };
+        let _ = bytes;
+        let mut prev: Option<(u8, u32)> = None;
+        for ((_, len), pcm) in spans.iter().zip(&pcms) {
+            let (ch, bps, n) = (pcm.channels as usize, pcm.bps as usize, pcm.frames());
+            let verbatim_bits = n * bps * ch + if ch == 2 { n } else { 0 };
+            let bound = FRAME_ALLOWANCE + verbatim_bits.div_ceil(8);
+            if *len > bound {
+                out.fail("frame-larger-than-verbatim", format!("stream-writer frame of {n} samples x {ch} ch x {bps} bits takes {len} bytes, verbatim bound is {bound}"));
+            }
+            let constant = pcm.data.iter().all(|c| c.iter().all(|v| *v == c[0]));
+            if constant && *len > FRAME_ALLOWANCE + CONSTANT_PER_CHANNEL * ch {
+                out.fail("constant-block-too-large", format!("a constant stream-writer frame of {n} samples x {ch} ch takes {len} bytes"));
+            }
+            if let Some((pb, pn)) = prev {
+                if pb as usize > bps && pn as usize == n {
+                    out.label("same-length-lower-depth-than-previous-frame");
+                    out.nontrivial = true;
+                }
+            }
+            prev = Some((pcm.bps, n as u32));
+        }
+        out.evals = spans.len().max(1) as u64;
+        out
+    }
+    fn sample(&self, c: &super::c02::StreamCase) -> serde_json::Value {
+        serde_json::json!({"frames": c.frames.iter().map(|f| format!("{}Hz {}ch {}bit x{}", f.recipe.rate, f.recipe.chans.len(), f.recipe.bps, f.recipe.frames)).collect::<Vec<_>>()})
+    }
+}
+
+/// frames of equal length with incompressible content and changing depth / channel count
+pub fn stream_expansion_strategy() -> BoxedStrategy<super::c02::StreamCase> {
+    use crate::pcm::{ChanRecipe, Kind};
+    (
+        proptest::sample::select(&[16u32, 64, 192, 576, 1000, 4096][..]),
+        proptest::collection::vec((proptest::sample::select(&super::c02::SUBSET_BPS[..]), 1u8..=3, any::<u64>(), 0u8..4), 2..=5),
+        opts::opts_strategy(Just(4096u16).boxed()),
+    )
+        .prop_map(|(n, frames, opts)| super::c02::StreamCase {
+            frames: frames
+                .into_iter()
+                .map(|(bps, ch, seed, k)| super::c02::FrameSpec {
+                    recipe: Recipe {
+                        bps,
+                        rate: 44100,
+                        frames: n,
+                        seed,
+                        chans: (0..ch)
+                            .map(|_| ChanRecipe {
+                                kind: match k {
+                                    0 | 1 => Kind::Noise { amp: bps - 1 },
+                                    2 => Kind::Square { run: 1 },
+                                    _ => Kind::RiceHostile { small: 1, outlier_every: 3 },
+                                },
+                                wasted: 0,
+                                relation: 0,
+                            })
+                            .collect(),
+                        seg: 0,
+                        ms_mix: 0,
+                    },
+                })
+                .collect(),
+            opts,
+        })
+        .boxed()
+}
+
 /// adversarial signals per predictor
 pub fn hostile_recipe_strategy(frames: BoxedStrategy<u32>) -> BoxedStrategy<Recipe> {
     (pcm::bps_strategy(), pcm::channels_strategy(), pcm::rate_strategy(), frames, any::<u64>())
@@ -187,6 +278,11 @@ pub fn run(ctx: &Ctx) {
         Tier::Thorough => 600_000,
     };
     ctx.search(&general, n, || prop_oneof![6 => enc_case_strategy(false, 4), 1 => super::c01::tonal_case_strategy()].boxed());
+    let n = match t {
+        Tier::Quick => 6_000,
+        Tier::Thorough => 200_000,
+    };
+    ctx.search(&StreamExpansion, n, || prop_oneof![2 => stream_expansion_strategy(), 1 => super::c02::stream_case_strategy(5, 300)].boxed());
     let constant = Expansion { name: "constant-grid" };
     let total = 7 * 8 * 4 * 7 * 3 * 3;
     ctx.enumerate(&constant, total, |i| Some(constant_case(i)));
@@ -199,5 +295,6 @@ pub fn engines() -> Vec<Box<dyn crate::engine::DynEngine>> {
         Box::new(Expansion { name: "expansion-hostile-large" }),
         Box::new(Expansion { name: "expansion-general" }),
         Box::new(Expansion { name: "constant-grid" }),
+        Box::new(StreamExpansion),
     ]
 }
